@@ -93,7 +93,9 @@ def summarize_traces(traces):
 def run_api(prop, tier, seed, profiles, builds, own_guards, crash_decisive=False, nruns=(6, 40), ops=(2500, 6000),
             maxlive=(150, 600), gen=(24, 200), gen_depth=30, mc_cfg=("MiApiMC.cfg", "MiApiMC_thorough.cfg"),
             driver="drv_api", driver_src="drv_api.c", extra_args=(), envs=(None,), shim=False, assumptions=(), level_extra=None,
-            group=3, finish=True):
+            group=3, finish=True, extra_runs=()):
+    """extra_runs: env dicts (with "_args", "_tag", optional "_builds") that are executed once on every build in addition to the
+    rotating (profile, env) runs"""
     q = 0 if tier == "quick" else 1
     V = vlib.Verdict(prop, tier, seed)
     od = vlib.outdir(prop)
@@ -133,6 +135,16 @@ def run_api(prop, tier, seed, profiles, builds, own_guards, crash_decisive=False
             xargs = list(extra_args) + list((env or {}).get("_args", []))
             penv = {k: v for k, v in (env or {}).items() if not k.startswith("_")} or None
             traces.append((out, b, prof, s, env, None, tag))
+            jobs.append((lambda exe=exes[b], out=out, s=s, prof=prof, penv=penv, xargs=xargs: run_driver(exe, out, s, prof, ops[q], maxlive[q], xargs, penv)))
+            k += 1
+    for env in extra_runs:
+        for b in (env.get("_builds") or builds):
+            prof = profiles[0]
+            out = os.path.join(od, "t_%s_%s_%d.ndjson" % (b, env.get("_tag", "x").replace(".", "_"), k))
+            s = seed * 100003 + k
+            xargs = list(extra_args) + list(env.get("_args", []))
+            penv = {kk: v for kk, v in env.items() if not kk.startswith("_")} or None
+            traces.append((out, b, prof, s, env, None, env.get("_tag", "")))
             jobs.append((lambda exe=exes[b], out=out, s=s, prof=prof, penv=penv, xargs=xargs: run_driver(exe, out, s, prof, ops[q], maxlive[q], xargs, penv)))
             k += 1
     for j, pg in enumerate(progs):
